@@ -15,7 +15,9 @@ ErrLeaf == Bin("/", Lit(I(1)), Lit(I(0)))
 Leaves == { Lit(I(1)), Lit(UintV(FromInt(1))), Lit(Fin(FALSE, <<3>>, -1)), Lit(Bool(TRUE)), Lit(Null), Lit(S(<<97>>)), Lit(Bytes(<<97>>)),
             Lit(List(<<>>)), Lit(List(<<I(1)>>)), Lit(Map(<< <<S(<<97>>), I(1)>> >>)), Lit(Ts(Z)), Lit(Dur(MegaB)), Lit(Type("int")), ErrLeaf,
             \* boundary values: results that leave the range of their type must be errors, not Python exceptions
-            Lit(IntV(IntMax(64))), Lit(IntV(IntMin(64))), Lit(UintV(UintMax(64))), Lit(Ts(TsMax)), Lit(Ts(TsMin)), Lit(Dur(DurLim)) }
+            Lit(IntV(IntMax(64))), Lit(IntV(IntMin(64))), Lit(UintV(UintMax(64))), Lit(Ts(TsMax)), Lit(Ts(TsMin)), Lit(Dur(DurLim)),
+            \* doubles that have no literal: an infinity and a NaN (as operands, indexes, keys, arguments ...)
+            Bin("/", Lit(Fin(FALSE, <<1>>, 0)), Lit(Zero(FALSE))), Bin("/", Lit(Zero(FALSE)), Lit(Zero(FALSE))) }
 Few == { Lit(I(1)), Lit(S(<<97>>)) }
 X == Var("x")
 Fns1 == {"size", "int", "uint", "double", "string", "bytes", "bool", "type", "timestamp", "duration", "dyn", "getFullYear", "matches", "unknown_function"}
@@ -43,10 +45,23 @@ Roots ==
   \* the extension macros on lists whose items have no common ordering / no items
   \cup { MCall(l, "min", <<>>) : l \in { Lit(List(<<I(1), S(<<97>>)>>)), Lit(List(<<>>)), Lit(List(<<Null, I(1)>>)), Lit(List(<<List(<<>>), List(<<>>)>>)), Lit(Map(<< <<S(<<97>>), I(1)>> >>)) } }
   \cup { ListE(<<a, b>>) : a \in Leaves, b \in Few } \cup { MapE(<< <<a, b>> >>) : a \in Leaves, b \in Few } \cup { MapE(<< <<b, a>> >>) : a \in Leaves, b \in Few }
+\* CEL implementations must support 12 repetitions of each recursive rule (lists, maps, calls, conditionals, selections ...):
+\* combinations of three rules nested 12 deep each
+RECURSIVE Nest(_,_,_)
+Nest(kind, n, x) == IF n = 0 THEN x
+                    ELSE CASE kind = "list" -> ListE(<<Nest(kind, n - 1, x)>>)
+                           [] kind = "map" -> MapE(<< <<Lit(S(<<97>>)), Nest(kind, n - 1, x)>> >>)
+                           [] kind = "dyn" -> Call("dyn", <<Nest(kind, n - 1, x)>>)
+                           [] kind = "cond" -> CondE(Lit(Bool(TRUE)), Nest(kind, n - 1, x), Lit(I(0)))
+                           [] kind = "neg" -> Un("-", Nest(kind, n - 1, x))
+                           [] kind = "add" -> Bin("+", Nest(kind, n - 1, x), Lit(I(1)))
+Kinds == {"list", "map", "dyn", "cond", "neg", "add"}
+Deep == { Nest(k1, 12, Nest(k2, 12, Nest(k3, 12, Lit(I(1))))) : k1 \in Kinds, k2 \in Kinds, k3 \in {"list", "map", "add"} }
 Alphabet == { Syn!Id("a"), Syn!Lit("1"), Syn!Lit("true"), Syn!P("("), Syn!P(")"), Syn!P("["), Syn!P("]"), Syn!P("{"), Syn!P("}"), Syn!P("."), Syn!P(","),
               Syn!P("?"), Syn!P(":"), Syn!P("+"), Syn!P("-"), Syn!P("!"), Syn!P("&&"), Syn!P("=="), Syn!P("in") }
 Init == prog = Lit(Null) /\ exp = Null /\ toks = <<>> /\ acc = FALSE
-Next == \/ (MODE = "typed" /\ prog = Lit(Null) /\ \E p \in Roots : prog' = p /\ exp' = Eval(p, <<>>) /\ UNCHANGED <<toks, acc>>)
+Next == \/ (MODE = "deep" /\ prog = Lit(Null) /\ \E p \in Deep : prog' = p /\ exp' = Indef /\ UNCHANGED <<toks, acc>>)
+        \/ (MODE = "typed" /\ prog = Lit(Null) /\ \E p \in Roots : prog' = p /\ exp' = Eval(p, <<>>) /\ UNCHANGED <<toks, acc>>)
         \/ (MODE = "tokens" /\ Len(toks) < LEN /\ \E t \in Alphabet : toks' = Append(toks, t) /\ acc' = Syn!Accepts(toks') /\ UNCHANGED <<prog, exp>>)
 Spec == Init /\ [][Next]_vars
 \* the evaluator of the specification is total: never anything but a value, an error, or "not fixed"
